@@ -99,6 +99,7 @@ type Obligation struct {
 	Cover    bool // cover query: expected sat
 	Skolems  []string
 	NCands   int
+	Block    *ssa.BasicBlock
 	fc       *FnCtx
 	Result   *SolverResult
 	All      []SolverResult
@@ -135,6 +136,10 @@ type FnCtx struct {
 	pendingClosed [][2]string
 	closedDecls   []string
 	cands         []string
+	candBlock     map[string]*ssa.BasicBlock
+	curBlock      *ssa.BasicBlock // block being executed in the top-level frame
+	appendLens    []string
+	appendOffs    []string
 	heapAlloc     map[string]string // heap version -> allocation counter when it was created
 	closedNoted   map[string]bool
 	knownBig      map[string]string
@@ -198,12 +203,14 @@ func (fc *FnCtx) addFactQ(guard, term string, qs []QInst) {
 func (fc *FnCtx) addCand(t string) {
 	if fc.candSet == nil {
 		fc.candSet = map[string]bool{}
+		fc.candBlock = map[string]*ssa.BasicBlock{}
 	}
 	if fc.candSet[t] || len(t) > 200 {
 		return
 	}
 	fc.candSet[t] = true
 	fc.cands = append(fc.cands, t)
+	fc.candBlock[t] = fc.curBlock
 }
 
 // permFact asserts a definitional / ground fact that holds independently of the program point
@@ -279,7 +286,7 @@ func (fc *FnCtx) oblige(kind, what, guard, goal string, pos token.Pos, props []s
 	if n := fc.nameCnt[base]; n > 1 {
 		name = fmt.Sprintf("%s#%d", base, n)
 	}
-	o := &Obligation{Name: name, Kind: kind, Func: fc.fnName(), Guard: guard, Goal: goal, NFacts: len(fc.facts), fc: fc, Props: props, NCands: len(fc.cands)}
+	o := &Obligation{Name: name, Kind: kind, Func: fc.fnName(), Guard: guard, Goal: goal, NFacts: len(fc.facts), fc: fc, Props: props, NCands: len(fc.cands), Block: fc.curBlock}
 	if pos.IsValid() {
 		p := fc.eng.fset.Position(pos)
 		o.Pos = fmt.Sprintf("%s:%d", p.Filename, p.Line)
